@@ -510,6 +510,56 @@ def c03(ctx):
              "the sign of zero) is turned into text -- a number's text is the f64's own Display (rule shared with C08.R6 / C18.R6)")
     from .c18 import text_from_cast_rule
     text_from_cast_rule(ctx, "C03.R8", scope=lambda fn: fn.file.startswith("src/exec/"), min_fns=60)
+    rep.rule("C03.R9", "string * number: the sign of the count is tested on the number itself -- in Val::multiply every float-to-integer "
+             "conversion (which truncates towards zero and maps NaN to 0) is executed only on the true edge of a comparison of that same "
+             "float with 0 (`b >= 0.0`), so a count in (-1, 0) or NaN gives mysterious like every other negative count, not the empty string")
+    mul = ctx.F.fn("exec::val::Val::multiply")
+    if mul is None:
+        rep.fail("C03.R9", "anchor", "Val::multiply not found")
+    else:
+        from ..guards import _dominated_by_edge
+        rep.analysed(mul)
+        casts = [(bi, si, st) for bi, si, st in mul.assigns() if st["rv"].get("cast") == "FloatToInt"]
+        ok, why = True, ""
+        for bi, si, st in casts:
+            src = frozenset((d, p) for d, p in origins(mul, st["rv"]["a"]) if d[0] != "const")
+            guarded = False
+            for b2, s2, st2 in mul.assigns():
+                op = st2["rv"].get("bin")
+                if op not in ("ge", "gt", "le", "lt"):
+                    continue
+                a_, b_ = st2["rv"]["a"], st2["rv"]["b"]
+
+                def zero(o):
+                    c_ = o.get("const")
+                    if c_ is not None:
+                        return c_.get("bits") in ("0", 0) or str(c_.get("f64", "")) in ("0.0", "0", "-0.0") or str(c_.get("int", "")) == "0"
+                    return False
+                same_a = frozenset((d, p) for d, p in origins(mul, a_) if d[0] != "const") == src
+                same_b = frozenset((d, p) for d, p in origins(mul, b_) if d[0] != "const") == src
+                if same_a and zero(b_) and op in ("ge", "gt"):
+                    want_true = True
+                elif same_b and zero(a_) and op in ("le", "lt"):
+                    want_true = True
+                elif same_a and zero(b_) and op in ("lt", "le"):
+                    want_true = False
+                elif same_b and zero(a_) and op in ("gt", "ge"):
+                    want_true = False
+                else:
+                    continue
+                sw = mul.term(b2)
+                if sw["k"] != "switch":
+                    continue
+                zero_t = [tg for v, tg in sw["targets"] if v == "0"]
+                if not zero_t:
+                    continue
+                tg = sw["otherwise"] if want_true else zero_t[0]
+                if tg == bi or _dominated_by_edge(mul, bi, b2, tg):
+                    guarded = True
+            if not guarded:
+                ok, why = False, "Val::multiply converts the count to an integer (line %s) without having tested the sign of the float: -0.5 and NaN truncate to 0 and give \"\" where every negative count gives mysterious" % st.get("line")
+        rep.ob("C03.R9", "sign-before-truncation::multiply", ok and bool(casts), why or ("" if casts else "no float-to-integer conversion found in Val::multiply"), mul.loc(),
+               how="%d conversion(s), each on the `>= 0` edge of the same float" % len(casts))
 
 
 
